@@ -72,7 +72,7 @@ func (c12Prop) Assumptions() []string {
 	}
 }
 
-var c12Types = []string{"Flat", "Nested", "Ptrs", "Slices", "OneMap", "Timed", "Padded", "Omit", "Nulls", "PtrSlices"}
+var c12Types = []string{"Flat", "Nested", "Ptrs", "Slices", "OneMap", "Timed", "Padded", "Omit", "Nulls", "PtrSlices", "NullPtrs"}
 
 var c12OpNames = []string{"build", "build", "register", "register", "decode", "decode", "decodeproj", "decodeproj", "encode", "encode", "readfile", "readfile", "closebanks", "schema", "parsetime", "parsetime", "encoder"}
 
